@@ -26,6 +26,9 @@ def mk(chain, form, readers, optimize, first=None):
     if first == "bare":      # a non-arithmetic reader declared BEFORE the loop's own read
         body.append(("decl", "Signal", "v0", ("read", "m")))
         early["v0"] = "anchor"
+    elif first == "arith":
+        body.append(("decl", "Signal", "v0", B("*", ("read", "m"), I(2))))
+        early["v0"] = "input"
     elif first == "cmp":
         body.append(("decl", "Signal", "v0", B(">", ("read", "m"), I(3))))
         early["v0"] = "input"
@@ -92,6 +95,8 @@ class C04(core.Check):
                     if len(ch) >= 2 and (tier == "thorough" or ch[0] in ("+1", "inc%5")):
                         for first in ("bare", "cmp"):
                             out.append(mk(ch, form, ["arith"], optimize, first=first))
+                    if len(ch) == 1 or tier == "thorough" or ch[0] in ("+1", "inc%5"):
+                        out.append(mk(ch, form, ["bare"], optimize, first="arith"))
         return out
 
     def run_case(self, case):
